@@ -274,8 +274,8 @@ def p_batch(traces, wd, tag, enabled, max_reject=12):
 
 # ----------------------------------------------------------------------------- TLC jobs
 
-def consts(kind, nv=2, nk=1, remotes=("r1",), msq=2, mf=3, vias=("cmd", "h", "replace", "direct"), ghost=False, f12=True, lag=3):
-    return dict(Kind=kind, NV=nv, NK=nk, Remotes=set(remotes), MaxSyncQ=msq, MaxFifo=mf, Vias=set(vias), Ghost=ghost,
+def consts(kind, nv=2, nk=1, remotes=("r1",), msq=2, mf=3, mms=1, vias=("cmd", "h", "replace", "direct"), ghost=False, f12=True, lag=3):
+    return dict(Kind=kind, NV=nv, NK=nk, Remotes=set(remotes), MaxSyncQ=msq, MaxFifo=mf, MaxMapSync=mms, Vias=set(vias), Ghost=ghost,
                 AllowF12=f12, MaxLag=lag)
 
 
@@ -316,7 +316,7 @@ def plan(tier, kinds):
         "supply": [(consts("supply", nv=3, remotes=("r1", "r2"), msq=3, mf=6, ghost=True), 30 if q else 200, 40)],
         "demand": [(consts("demand", nv=3, remotes=("r1", "r2", "r3"), msq=3, ghost=True), 30 if q else 200, 40)],
         "map": [(consts("map", nk=3, nv=2, remotes=("r1", "r2"), ghost=True), 120 if q else 800, 50),
-                (consts("map", nk=2, nv=3, remotes=("r1", "r2", "r3"), ghost=True), 60 if q else 400, 60)],
+                (consts("map", nk=2, nv=3, remotes=("r1", "r2", "r3"), mms=2, ghost=True), 60 if q else 400, 60)],
     }
     sel = lambda d: {k: v for k, v in d.items() if k in kinds}
     return dict(graphs=sel(graphs), b3=sel(b3), neg=sel(neg), sims=sel(sims),
@@ -478,7 +478,7 @@ class Verdicts:
         self.stats["known"] += 1
         if hit:
             p = "C03" if "C03" in hit[0]["property"].split(",") else hit[0]["property"].split(",")[0]
-            self.known(p, "%s (observed at lane level, e.g. case %s on lane %s) %s" % (fid, "", case["cfg"]["lane"], hit[0]["what"][:300]), fid)
+            self.known(p, "%s (observed at lane level, e.g. case %s on lane %s) %s" % (fid, case["id"], case["cfg"]["lane"], hit[0]["what"][:300]), fid)
         else:
             self.report("C03", "%s: case %s is accepted by P only through the deviation %s, which is not an open known finding" % (
                 what, case["id"], fid), {"component": "lanes", "what": what, "case": public_case(case), "observed": result, "why": fid})
@@ -598,7 +598,7 @@ def run_k(tier, out, wd, prop="C01"):
                          d["replayed_calls"], d["conform"], d["order_free"], d["drift"], d["rejected"]))
             if kind not in sampled and cases:
                 sampled.add(kind)
-                j = min(len(cases) - 1, ncover // 2)
+                j = next((x for x in range(ncover // 2, len(cases)) if sum(a["k"] == "write" for a in cases[x]["acts"][:8]) >= 2), ncover // 2)
                 out.sample({"component": "Lanes[%s] lane %s" % (kname(k), cases[j]["cfg"]["lane"]), "binding": cases[j]["_b"].desc,
                             "calls_with_expected_results": cases[j]["acts"][:8], "concrete_calls": wire(cases[j])["acts"][:8],
                             "real_results": results[j].get("obs", [])[:8]}, cap=8)
